@@ -13,11 +13,14 @@ for ev in sorted(glob.glob('/verif/evidence/C*.json')):
 out = []
 out.append("Generated from the thorough self-test (`coverage.self_test` in `evidence/<id>.json`) and `seeded/*/meta.json`.")
 out.append("")
-out.append("**Seeded by independent sub-agents** (each given only the property text and a scratch worktree; 3 per property, 60 in total; every one confirmed here: demo passes on the clean tree, existing tests and all builds pass with the change, demo fails with the change). All 60 are reported by the check of the property they target:")
+seeded_dirs = sorted(glob.glob('/verif/seeded/C*-[mnpqrst]*'))
+n_seeded = len(seeded_dirs)
+n_det = sum(1 for d in seeded_dirs if 'DETECTED' in json.load(open(os.path.join(d, 'meta.json'))).get('check_result', ''))
+out.append(f"**Seeded by independent sub-agents** in seven rounds (suffixes m, n, p, q, r, s, t; each agent was given only the property text and a scratch worktree, and from round two on a list of the kinds of change already used; 3 per property and round, {n_seeded} in total; every one confirmed here: demo passes on the clean tree, existing tests and all builds pass with the change, demo fails with the change — demos that are scripts, JavaScript, js/wasm or build-overlay runs were confirmed by hand, see `meta.json`). {n_det} of {n_seeded} are reported by the check of the property they target on today's tree. When first run against the checks as they stood, round two had 11 misses, round three 21, round four 14, round five 8, round six 11, round seven 6; each miss led to a new or generalised rule (named in §3 under the property), never to a special case:")
 out.append("")
 out.append("| change | what it needs to manifest (from the author's notes) | reported by |")
 out.append("|---|---|---|")
-for d in sorted(glob.glob('/verif/seeded/C*-m*')):
+for d in seeded_dirs:
     m = json.load(open(os.path.join(d, 'meta.json')))
     rules = sorted({re.search(r'rule ([^,]+),', l).group(1) for l in m.get('check_report', []) if re.search(r'rule ([^,]+),', l)})
     first = ''
